@@ -16,6 +16,7 @@
 -/
 import Cog.Drv.FrontOaDrv
 import Cog.Front.KeepsConstraints
+import Cog.Front.OpenApiKeeps
 import Cog.Sem.DefaultsFits
 import Cog.Sem.GoValidateSpec
 namespace Cog.Drv
@@ -201,5 +202,84 @@ def jsfc08Line (rest : String) : IO String := do
   | _ => return "bad-request"
 
 end JS
+
+/-! ### OpenAPI cases -/
+
+section OA
+open Cog.Front.OpenApi
+
+def oaScalarFields (r : OSR) : List (String × Ty × Bool) :=
+  (Cog.Front.OpenApi.propsOf r).filterMap fun p =>
+    (Cog.Front.OpenApi.scalarNode p.2).map fun t => (p.1, Cog.Front.OpenApi.scalarOf (attrsOf p.2) t, (attrsOf r).required.contains p.1)
+
+def oafkeepsLine (rest : String) : IO String := do
+  match rest.splitOn " " with
+  | [id, realId] =>
+    match (← frontOaStore.get).get? id, ← getSchemas realId with
+    | some c, some real =>
+      let prep ← srcPrep realId real
+      let plain := Plain real
+      let plainN := PlainN real
+      let modelPy := match runChain Cog.Gen.Chains.pythonChain real with | .ok s => some s | _ => none
+      let cs := c.comps.getD []
+      let st := cs.foldl (fun st (d : String × OSR) =>
+        if Cog.Front.OpenApi.isObjectNode d.2 then
+          keepsObject real prep.model modelPy plain plainN (Cog.Front.OpenApi.sortedKeys (Cog.Front.OpenApi.propsOf d.2))
+            ((Cog.Front.OpenApi.rawFields (attrsOf d.2).required (Cog.Front.OpenApi.propsOf d.2)).isSome) c.pkg d.1 (oaScalarFields d.2) st
+        else st) ({} : KeepsStat)
+      return st.render
+    | none, _ => return "unknown-case"
+    | _, none => return "unknown-schemas"
+  | _ => return "bad-request"
+
+/-- the sub-documents of `j` with the component they sit at -/
+partial def oaSubDocs (cs : Components) (fuel : Nat) (r : OSR) (j : Json) : List (String × Json) :=
+  if fuel == 0 then [] else
+  match r with
+  | .mk ref _ _ (.mk _ _ _ _ props addl items) =>
+    if isRef ref then
+      (match lookupComp cs (lastSegment ref) with
+       | some t => (lastSegment ref, j) :: oaSubDocs cs (fuel - 1) t j
+       | none => [])
+    else
+      match j with
+      | .obj ms =>
+        ms.flatMap fun kv =>
+          match props.find? (fun p => p.1 == kv.1) with
+          | some p => oaSubDocs cs (fuel - 1) p.2 kv.2
+          | none => (match addl with | .some e => oaSubDocs cs (fuel - 1) e kv.2 | .none => [])
+      | .arr xs => (match items with | .some e => xs.flatMap fun x => oaSubDocs cs (fuel - 1) e x | .none => [])
+      | _ => []
+
+def oafc08Line (rest : String) : IO String := do
+  match rest.splitOn " " with
+  | id :: realId :: root :: js =>
+    match (← frontOaStore.get).get? id, ← getSchemas realId with
+    | some c, some real =>
+      match (Sexp.parse (" ".intercalate js)).bind Json.ofSexp with
+      | none => return "bad-json"
+      | some j =>
+        let prep ← srcPrep realId real
+        match prep.model with
+        | none => return ({} : C08Stat).render
+        | some Sg =>
+          if !(Plain real && noConstrainedAlias Sg) then return ({} : C08Stat).render else
+          let cs := c.comps.getD []
+          let pairs := oaSubDocs cs 12 (Cog.Front.OpenApi.refTo root) j
+          let st := pairs.foldl (fun st (nw : String × Json) =>
+            match lookupComp cs nw.1 with
+            | some r =>
+              if Cog.Front.OpenApi.isObjectNode r && Cog.Front.OpenApi.sortedKeys (Cog.Front.OpenApi.propsOf r) then
+                match Cog.Front.OpenApi.rawFields (attrsOf r).required (Cog.Front.OpenApi.propsOf r) with
+                | some gs => c08Instance Sg c.pkg nw.1 gs none false nw.2 st
+                | none => st
+              else st
+            | none => st) ({} : C08Stat)
+          return st.render
+    | none, _ => return "unknown-case"
+    | _, none => return "unknown-schemas"
+  | _ => return "bad-request"
+
+end OA
 
 end Cog.Drv
